@@ -267,38 +267,98 @@ theorem countRange_spec (w w' : Nat) (hw' : 0 < w') (hfit : (w : Int) ≤ smax w
   rw [wrap_nat_of_le hw' hn hfit]
   exact h3 _ (by omega) (by omega)
 
-set_option linter.unusedVariables false in
+theorem countFits_iff (w w' : Nat) : IntervalDomain.countFits w w' = true ↔ (w : Int) ≤ smax w' := by
+  simp only [IntervalDomain.countFits, decide_eq_true_eq]
+
+/-- the guard is what the Rust code computes on `usize` values:
+`!(w' <= 64 && w >> (w' - 1) != 0)` -/
+theorem countFits_eq_rust (w w' : Nat) (hw : w < 2 ^ 64) :
+    IntervalDomain.countFits w w' = !(decide (w' ≤ 64) && (w >>> (w' - 1) != 0)) := by
+  have hpow : (pow2 (w' - 1) : Int) = ((2 ^ (w' - 1) : Nat) : Int) := rfl
+  have hp := Nat.two_pow_pos (w' - 1)
+  rw [Bool.eq_iff_iff, countFits_iff]
+  simp only [Bool.not_eq_true', Bool.and_eq_false_iff, decide_eq_false_iff_not, bne_eq_false_iff_eq,
+    Nat.shiftRight_eq_div_pow]
+  unfold smax
+  rw [hpow]
+  constructor
+  · intro h
+    right
+    exact Nat.div_eq_of_lt (by omega)
+  · rintro (h | h)
+    · have : 2 ^ 64 ≤ 2 ^ (w' - 1) := Nat.pow_le_pow_right (by decide) (by omega)
+      omega
+    · have := (Nat.div_eq_zero_iff_lt hp).mp h
+      omega
+
+/-- the guard of the count casts is not taken for singletons and for operands whose bit length fits -/
+theorem countGuard_false (a : IntervalDomain) (w' : Nat)
+    (h : a.interval.start = a.interval.stop ∨ (a.w : Int) ≤ smax w') :
+    (a.tryToBitvec.isNone && !IntervalDomain.countFits a.w w') = false := by
+  rcases h with h | h
+  · have ht : a.tryToBitvec = some a.interval.start := if_pos h
+    simp [ht]
+  · simp [(countFits_iff a.w w').mpr h]
+
+theorem countGuard_true (a : IntervalDomain) (w' : Nat)
+    (h1 : ¬ a.interval.start = a.interval.stop) (h2 : ¬ (a.w : Int) ≤ smax w') :
+    (a.tryToBitvec.isNone && !IntervalDomain.countFits a.w w') = true := by
+  have ht : a.tryToBitvec = none := if_neg h1
+  have hf : IntervalDomain.countFits a.w w' = false := by
+    rw [Bool.eq_false_iff]; intro h; exact h2 ((countFits_iff a.w w').mp h)
+  simp [ht, hf]
+
+theorem newTop_dom_spec (w' : Nat) (hw' : 1 < w') :
+    (IntervalDomain.newTop w').WF ∧ (IntervalDomain.newTop w').w = w' ∧
+    ∀ z, InRange w' z → (IntervalDomain.newTop w').Mem z :=
+  ⟨ofInterval_wf (Interval.wf_newTop w' hw'), rfl, fun _ hz => (Interval.mem_newTop _ _).mpr hz⟩
+
 /-- **C02-popcount.** Soundness of `cast(PopCount)`: the population count of every member of `a`
-is a member of the result. -/
-theorem popCount_sound (a : IntervalDomain) (ha : a.WF) (w' : Nat) (hw' : 1 < w')
-    (hfit : (a.w : Int) ≤ smax w') {x : Int} (hx : a.Mem x) :
+is a member of the result (all operand and result widths). -/
+theorem popCount_sound (a : IntervalDomain) (_ha : a.WF) (w' : Nat) (hw' : 1 < w')
+    {x : Int} (hx : a.Mem x) :
     (a.cast .popCount w').Mem (cpopcount a.w w' x) := by
   simp only [IntervalDomain.cast]
   by_cases h : a.interval.start = a.interval.stop
-  · have ht : a.tryToBitvec = some a.interval.start := if_pos h
+  · rw [countGuard_false a w' (.inl h)]
+    simp only [Bool.false_eq_true, if_false]
+    have ht : a.tryToBitvec = some a.interval.start := if_pos h
     rw [ht]
     have : x = a.interval.start := by
       have h1 := hx.1; have h2 := hx.2.1; omega
     subst this
     exact (Interval.mem_single _ _ _).mpr rfl
   · have ht : a.tryToBitvec = none := if_neg h
-    rw [ht]
-    exact (countRange_spec a.w w' (by omega) hfit).2.2 _ (popCountNat_le _ _)
+    by_cases hfit : (a.w : Int) ≤ smax w'
+    · rw [countGuard_false a w' (.inr hfit)]
+      simp only [Bool.false_eq_true, if_false]
+      rw [ht]
+      exact (countRange_spec a.w w' (by omega) hfit).2.2 _ (popCountNat_le _ _)
+    · rw [countGuard_true a w' h hfit]
+      simp only [if_true]
+      exact (newTop_dom_spec w' hw').2.2 _ (wrap_inRange w' (by omega) _)
 
-set_option linter.unusedVariables false in
-/-- **C02-popcount-wf.** The result of `cast(PopCount)` is well-formed and has the requested width. -/
-theorem popCount_wf (a : IntervalDomain) (ha : a.WF) (w' : Nat) (hw' : 1 < w')
-    (hfit : (a.w : Int) ≤ smax w') :
+/-- **C02-popcount-wf.** The result of `cast(PopCount)` is well-formed and has the requested width
+(all operand and result widths: a bit length that does not fit the result gives `Top`). -/
+theorem popCount_wf (a : IntervalDomain) (_ha : a.WF) (w' : Nat) (hw' : 1 < w') :
     (a.cast .popCount w').WF ∧ (a.cast .popCount w').w = w' := by
   simp only [IntervalDomain.cast]
   by_cases h : a.interval.start = a.interval.stop
-  · have ht : a.tryToBitvec = some a.interval.start := if_pos h
+  · rw [countGuard_false a w' (.inl h)]
+    simp only [Bool.false_eq_true, if_false]
+    have ht : a.tryToBitvec = some a.interval.start := if_pos h
     rw [ht]
     exact ⟨ofInterval_wf (Interval.wf_single w' (by omega) _ (wrap_inRange w' (by omega) _)), rfl⟩
   · have ht : a.tryToBitvec = none := if_neg h
-    rw [ht]
-    have := countRange_spec a.w w' (by omega) hfit
-    exact ⟨this.1, this.2.1⟩
+    by_cases hfit : (a.w : Int) ≤ smax w'
+    · rw [countGuard_false a w' (.inr hfit)]
+      simp only [Bool.false_eq_true, if_false]
+      rw [ht]
+      have := countRange_spec a.w w' (by omega) hfit
+      exact ⟨this.1, this.2.1⟩
+    · rw [countGuard_true a w' h hfit]
+      simp only [if_true]
+      exact ⟨(newTop_dom_spec w' hw').1, (newTop_dom_spec w' hw').2.1⟩
 
 /-- `leading_zeros` is antitone on an interval that does not cross zero, and the branch
 `lz start ≥ lz stop` of `cast(LzCount)` is not taken for an interval that crosses zero -/
@@ -321,45 +381,90 @@ theorem leadingZeros_between (w : Nat) (hw : 0 < w) {s e x : Int} (hs : InRange 
         rw [hUx, hUs]; split <;> split <;> omega
       omega
 
-/-- **C02-lzcount.** Soundness of `cast(LzCount)`: the number of leading zeros of every member of
-`a` is a member of the result. -/
-theorem lzCount_sound (a : IntervalDomain) (ha : a.WF) (w' : Nat) (hw' : 1 < w')
-    (hfit : (a.w : Int) ≤ smax w') {x : Int} (hx : a.Mem x) :
-    (a.cast .lzCount w').Mem (clzcount a.w w' x) := by
-  have hcr := (countRange_spec a.w w' (by omega) hfit).2.2 _ (leadingZeros_le a.w x)
-  simp only [IntervalDomain.cast]
-  split
-  · exact hcr
-  · split
-    · rename_i hge
-      obtain ⟨hw, hs, he, _⟩ := ha.1
-      have hb := leadingZeros_between a.w hw hs he hx.1 hx.2.1 hge
-      have hle := leadingZeros_le a.w a.interval.start
-      have hw0 : 0 < w' := by omega
-      unfold clzcount
-      rw [wrap_nat_of_le hw0 (leadingZeros_le a.w _) hfit, wrap_nat_of_le hw0 (leadingZeros_le a.w _) hfit,
-        wrap_nat_of_le hw0 (leadingZeros_le a.w _) hfit]
-      refine (new_spec w' hw0 (inRange_nat_of_le (leadingZeros_le a.w _) hfit)
-        (inRange_nat_of_le (leadingZeros_le a.w _) hfit) (by omega)).2.2 _ (by omega) (by omega)
-    · exact hcr
+/-- a well-formed singleton is not `Top` -/
+theorem isTop_single_false (a : IntervalDomain) (ha : a.WF) (h : a.interval.start = a.interval.stop) :
+    a.isTop = false := by
+  have h0 : a.interval.stride = 0 := ha.1.2.2.2.2.1.mpr h
+  simp [IntervalDomain.isTop, Interval.isTop, h0]
 
-set_option linter.unusedVariables false in
-/-- **C02-lzcount-wf.** The result of `cast(LzCount)` is well-formed and has the requested width. -/
-theorem lzCount_wf (a : IntervalDomain) (ha : a.WF) (w' : Nat) (hw' : 1 < w')
-    (hfit : (a.w : Int) ≤ smax w') :
-    (a.cast .lzCount w').WF ∧ (a.cast .lzCount w').w = w' := by
-  have hcr := countRange_spec a.w w' (by omega) hfit
+/-- **C02-lzcount.** Soundness of `cast(LzCount)`: the number of leading zeros of every member of
+`a` is a member of the result (all operand and result widths). -/
+theorem lzCount_sound (a : IntervalDomain) (ha : a.WF) (w' : Nat) (hw' : 1 < w')
+    {x : Int} (hx : a.Mem x) :
+    (a.cast .lzCount w').Mem (clzcount a.w w' x) := by
+  have hw0 : 0 < w' := by omega
   simp only [IntervalDomain.cast]
-  split
-  · exact ⟨hcr.1, hcr.2.1⟩
-  · split
-    · rename_i hge
-      have hw0 : 0 < w' := by omega
-      rw [wrap_nat_of_le hw0 (leadingZeros_le a.w _) hfit, wrap_nat_of_le hw0 (leadingZeros_le a.w _) hfit]
-      have := new_spec w' hw0 (inRange_nat_of_le (leadingZeros_le a.w a.interval.stop) hfit)
-        (inRange_nat_of_le (leadingZeros_le a.w a.interval.start) hfit) (by omega)
-      exact ⟨ofInterval_wf this.1, this.2.1⟩
+  by_cases hfit : (a.w : Int) ≤ smax w'
+  · have hcr := (countRange_spec a.w w' (by omega) hfit).2.2 _ (leadingZeros_le a.w x)
+    rw [countGuard_false a w' (.inr hfit)]
+    simp only [Bool.false_eq_true, if_false]
+    split
+    · exact hcr
+    · split
+      · rename_i hge
+        obtain ⟨hw, hs, he, _⟩ := ha.1
+        have hb := leadingZeros_between a.w hw hs he hx.1 hx.2.1 hge
+        have hle := leadingZeros_le a.w a.interval.start
+        unfold clzcount
+        rw [wrap_nat_of_le hw0 (leadingZeros_le a.w _) hfit, wrap_nat_of_le hw0 (leadingZeros_le a.w _) hfit,
+          wrap_nat_of_le hw0 (leadingZeros_le a.w _) hfit]
+        refine (new_spec w' hw0 (inRange_nat_of_le (leadingZeros_le a.w _) hfit)
+          (inRange_nat_of_le (leadingZeros_le a.w _) hfit) (by omega)).2.2 _ (by omega) (by omega)
+      · exact hcr
+  · by_cases h : a.interval.start = a.interval.stop
+    · -- a constant: the exact count (resized like the reference does)
+      rw [countGuard_false a w' (.inl h)]
+      simp only [Bool.false_eq_true, if_false]
+      rw [isTop_single_false a ha h]
+      simp only [Bool.false_eq_true, if_false]
+      have hxs : x = a.interval.start := by
+        have h1 := hx.1; have h2 := hx.2.1; omega
+      subst hxs
+      rw [← h, if_pos (Nat.le_refl _)]
+      unfold clzcount
+      exact (new_spec w' hw0 (wrap_inRange w' hw0 _) (wrap_inRange w' hw0 _) (Int.le_refl _)).2.2 _
+        (Int.le_refl _) (Int.le_refl _)
+    · rw [countGuard_true a w' h hfit]
+      simp only [if_true]
+      exact (newTop_dom_spec w' hw').2.2 _ (wrap_inRange w' hw0 _)
+
+/-- **C02-lzcount-wf.** The result of `cast(LzCount)` is well-formed and has the requested width
+(all operand and result widths). -/
+theorem lzCount_wf (a : IntervalDomain) (ha : a.WF) (w' : Nat) (hw' : 1 < w') :
+    (a.cast .lzCount w').WF ∧ (a.cast .lzCount w').w = w' := by
+  have hw0 : 0 < w' := by omega
+  simp only [IntervalDomain.cast]
+  by_cases hfit : (a.w : Int) ≤ smax w'
+  · have hcr := countRange_spec a.w w' (by omega) hfit
+    rw [countGuard_false a w' (.inr hfit)]
+    simp only [Bool.false_eq_true, if_false]
+    split
     · exact ⟨hcr.1, hcr.2.1⟩
+    · split
+      · rename_i hge
+        rw [wrap_nat_of_le hw0 (leadingZeros_le a.w _) hfit, wrap_nat_of_le hw0 (leadingZeros_le a.w _) hfit]
+        have := new_spec w' hw0 (inRange_nat_of_le (leadingZeros_le a.w a.interval.stop) hfit)
+          (inRange_nat_of_le (leadingZeros_le a.w a.interval.start) hfit) (by omega)
+        exact ⟨ofInterval_wf this.1, this.2.1⟩
+      · exact ⟨hcr.1, hcr.2.1⟩
+  · by_cases h : a.interval.start = a.interval.stop
+    · rw [countGuard_false a w' (.inl h)]
+      simp only [Bool.false_eq_true, if_false]
+      rw [isTop_single_false a ha h]
+      simp only [Bool.false_eq_true, if_false]
+      rw [← h, if_pos (Nat.le_refl _)]
+      have := new_spec w' hw0 (wrap_inRange w' hw0 ((leadingZeros a.w a.interval.start : Nat) : Int))
+        (wrap_inRange w' hw0 _) (Int.le_refl _)
+      exact ⟨ofInterval_wf this.1, this.2.1⟩
+    · rw [countGuard_true a w' h hfit]
+      simp only [if_true]
+      exact ⟨(newTop_dom_spec w' hw').1, (newTop_dom_spec w' hw').2.1⟩
+
+/-- the repaired corner: a non-constant 16-byte operand and a 1-byte result (the bit length 128 is not
+an `i8`) give `Top`, a 16-byte constant is still counted exactly (`popcount(-1) = 128 = -128 as i8`) -/
+example : let a : IntervalDomain := ⟨{ w := 128, start := 0, stop := 5, stride := 1 }, none, none, 0⟩
+    a.cast .popCount 8 = IntervalDomain.newTop 8 ∧ a.cast .lzCount 8 = IntervalDomain.newTop 8 ∧
+    (IntervalDomain.single 128 (-1)).cast .popCount 8 = IntervalDomain.single 8 (-128) := by decide +kernel
 
 
 example : let a : IntervalDomain := ⟨{ w := 8, start := -3, stop := 5, stride := 2 }, none, some (-7), 0⟩
@@ -367,7 +472,7 @@ example : let a : IntervalDomain := ⟨{ w := 8, start := -3, stop := 5, stride 
     (a.cast .lzCount 8).Mem (clzcount 8 8 3) ∧ clzcount 8 8 3 = 6 := by
   intro a
   have ha : a.WF := ⟨by decide, fun u hu => (by cases hu), fun l hl => (by cases hl; decide), by decide⟩
-  exact ⟨popCount_sound a ha 8 (by decide) (by decide) (by decide), by decide,
-    lzCount_sound a ha 8 (by decide) (by decide) (by decide), by decide⟩
+  exact ⟨popCount_sound a ha 8 (by decide) (by decide), by decide,
+    lzCount_sound a ha 8 (by decide) (by decide), by decide⟩
 
 end CweModel.C02
